@@ -101,8 +101,8 @@ def cname(n):
 class V:
     """a compiled pure expression"""
 
-    def __init__(self, ty, code):
-        self.ty, self.code = ty, code
+    def __init__(self, ty, code, parts=None):
+        self.ty, self.code, self.parts = ty, code, parts
 
 
 # ------------------------------------------------------------------------------------------------------------------
@@ -183,6 +183,37 @@ class Translator:
         if got != 'self.left_set = left_set\nself.right_set = right_set\nself.resolvant = resolvant':
             fail(rhs[0], 'class ResolutionHintSource: constructor body changed')
 
+    def helper_is_pure(self, m, seen=None):
+        """a proof-returning helper of class Tautology may be dropped only if it cannot change verdict-layer data:
+        no assignment to attributes / subscripts, no mutating method call, and only pure helpers / library rules called"""
+        seen = seen or set()
+        if m in seen:
+            return True
+        seen.add(m)
+        f = self.methods.get(m)
+        if f is None:
+            return True           # inherited library rule (Propositional / ProofExp): takes patterns and proofs only
+        for n in ast.walk(f):
+            if isinstance(n, (ast.Assign, ast.AnnAssign, ast.AugAssign)):
+                tgs = n.targets if isinstance(n, ast.Assign) else [n.target]
+                for t in tgs:
+                    for x in ast.walk(t):
+                        if isinstance(x, (ast.Attribute, ast.Subscript)):
+                            return False
+            if isinstance(n, ast.Call) and isinstance(n.func, ast.Attribute):
+                if n.func.attr in ('append', 'extend', 'insert', 'pop', 'remove', 'clear', 'update', 'add', 'sort', 'reverse',
+                                   'setdefault', 'discard', '__setattr__'):
+                    return False
+                if isinstance(n.func.value, ast.Name) and n.func.value.id == 'self':
+                    c = n.func.attr
+                    if c in TRANSLATED:
+                        return False
+                    if c in self.methods and not self.helper_is_pure(c, seen):
+                        return False
+            if isinstance(n, (ast.Global, ast.Nonlocal, ast.Delete)):
+                return False
+        return True
+
     def self_calls(self, f):
         out = set()
         for n in ast.walk(f):
@@ -217,9 +248,11 @@ class Translator:
             if m in PROOF_RECONSTRUCTION:
                 return True
             t = self.sig.get(m)
-            if t == 'proof':
+            if t == 'proof' and self.helper_is_pure(m):
                 return True
-            fail(e, f'call of method {m} which is neither translated nor proof-returning')
+            if t is not None and t != 'unknown' and project(t) == 'proof' and self.helper_is_pure(m):
+                return True       # private helper returning only proofs (tuple of ProofThunks) that cannot touch verdict data
+            fail(e, f'call of method {m} which is neither translated nor a (pure) proof-returning helper')
         return False
 
     def proof_expr(self, e, proofvars):
@@ -430,7 +463,7 @@ class Translator:
             return V(lt, '[' + '; '.join(v.code for v in vs) + ']')
         if isinstance(e, ast.Tuple):
             vs = [self.cexpr(x, cx) for x in e.elts]
-            return V(('tuple', [v.ty for v in vs]), '(' + ', '.join(v.code for v in vs) + ')')
+            return V(('tuple', [v.ty for v in vs]), '(' + ', '.join(v.code for v in vs) + ')', parts=vs)
         if isinstance(e, ast.Set):
             vs = [self.cexpr(x, cx) for x in e.elts]
             return V('fset', '(mkset [' + '; '.join(self.as_int(v, e) for v in vs) + '])')
@@ -460,6 +493,16 @@ class Translator:
             if lt is None:
                 fail(e, 'list comprehension element type')
             return V(lt, f'(map (fun {cname(x)} => {body.code}) {it.code})')
+        if isinstance(e, ast.IfExp):
+            # canonical form shared with the if/else statement that assigns one variable in both branches
+            c = self.truthy(self.cexpr(e.test, cx), e)
+            a, b = self.cexpr(e.body, cx), self.cexpr(e.orelse, cx)
+            if a.ty != b.ty:
+                if a.ty in ('int', 'id') and b.ty in ('int', 'id'):
+                    a, b = V('int', self.as_int(a, e)), V('int', self.as_int(b, e))
+                else:
+                    fail(e, f'conditional expression of types {a.ty} / {b.ty}')
+            return V(a.ty, f'(if {c} then {a.code} else {b.code})')
         if isinstance(e, ast.Attribute):
             return self.cattr(e, cx)
         if isinstance(e, ast.Subscript):
@@ -563,6 +606,23 @@ class Translator:
             args = e.args
             if n == 'isinstance':
                 fail(e, 'isinstance outside an if-test')
+            if n == 'any' and len(args) == 1 and isinstance(args[0], ast.GeneratorExp):
+                g = args[0]
+                it = g.generators[0].iter if len(g.generators) == 1 else None
+                if not (it is not None and not g.generators[0].ifs and isinstance(it, ast.Call) and isinstance(it.func, ast.Name)
+                        and it.func.id == 'combinations' and len(it.args) == 2 and isinstance(it.args[1], ast.Constant)
+                        and it.args[1].value == 2 and isinstance(g.generators[0].target, ast.Tuple)
+                        and len(g.generators[0].target.elts) == 2):
+                    fail(e, 'any(...) is only recognised over combinations(l, 2)')
+                l = self.cexpr(it.args[0], cx)
+                if l.ty not in ('clause', 'fset'):
+                    fail(e, 'combinations over a non-integer collection')
+                a, b = (t.id for t in g.generators[0].target.elts)
+                sub = cx.child()
+                sub.env[a] = V('int', cname(a))
+                sub.env[b] = V('int', cname(b))
+                c = self.truthy(self.cexpr(g.elt, sub), e)
+                return V('bool', f"(existsb (fun '({cname(a)}, {cname(b)}) => {c}) (combinations2 {l.code}))")
             if n == 'len' and len(args) == 1:
                 v = self.cexpr(args[0], cx)
                 if v.ty in ('clause', 'clauses', 'fset', 'fsetlist', 'hint'):
@@ -778,18 +838,14 @@ class Translator:
             obj = tg.value
             if isinstance(obj, ast.Name):
                 cur = self.cexpr(obj, cx)
-                nn = cx.fresh(obj.id)
-                cx.env[obj.id] = V('cf', nn)
-                k = self.cblock(rest, cx.same())
-                return self.wrap(cx, f'let {nn} := cf_set_negated {cur.code} {v.code} in\n{k}')
+                cx.env[obj.id] = V('cf', f'(cf_set_negated {cur.code} {v.code})')
+                return self.wrap(cx, self.cblock(rest, cx.same()))
             if isinstance(obj, ast.Attribute) and obj.attr in ('left', 'right') and isinstance(obj.value, ast.Name):
                 base = obj.value.id
                 cur = self.cexpr(obj.value, cx)
                 child = self.cexpr(obj, cx)       # checks the isinstance fact
-                nn = cx.fresh(base)
-                cx.env[base] = V('cf', nn)
-                k = self.cblock(rest, cx.same())
-                return self.wrap(cx, f'let {nn} := cf_set_{obj.attr} {cur.code} (cf_set_negated {child.code} {v.code}) in\n{k}')
+                cx.env[base] = V('cf', f'(cf_set_{obj.attr} {cur.code} (cf_set_negated {child.code} {v.code}))')
+                return self.wrap(cx, self.cblock(rest, cx.same()))
             fail(s, 'attribute assignment target')
         # d[k] = v
         if isinstance(tg, ast.Subscript):
@@ -806,16 +862,12 @@ class Translator:
                 v = V('hsrc', f'(hidx {v.code})')
             if v.ty != 'hsrc':
                 fail(s, f'dict value of type {v.ty}')
-            nn = cx.fresh(tg.value.id)
-            cx.env[tg.value.id] = V('hint', nn)
-            k = self.cblock(rest, cx.same())
-            return self.wrap(cx, f'let {nn} := hint_set {kx.code} {v.code} {d.code} in\n{k}')
+            cx.env[tg.value.id] = V('hint', f'(hint_set {kx.code} {v.code} {d.code})')
+            return self.wrap(cx, self.cblock(rest, cx.same()))
         # annotated `hint: ResolutionHint = {}`
         if isinstance(val, ast.Dict) and not val.keys and isinstance(tg, ast.Name):
-            nn = cx.fresh(tg.id)
-            cx.env[tg.id] = V('hint', nn)
-            k = self.cblock(rest, cx.same())
-            return f'let {nn} : hint := [] in\n{k}'
+            cx.env[tg.id] = V('hint', '(@nil (list Z * hsrc))')
+            return self.cblock(rest, cx.same())
         # [resolvent] = common
         if isinstance(tg, ast.List):
             if len(tg.elts) != 1 or not isinstance(tg.elts[0], ast.Name):
@@ -838,10 +890,8 @@ class Translator:
                 r = self.cexpr(val, cx)
                 kept = [(t, ty) for t, ty in zip(tg.elts, full[1]) if ty != 'proof']
                 if len(kept) == 1:
-                    nn = cx.fresh(kept[0][0].id)
-                    cx.env[kept[0][0].id] = V(r.ty, nn)
-                    k = self.cblock(rest, cx.same())
-                    return self.wrap(cx, f'let {nn} := {r.code} in\n{k}')
+                    cx.env[kept[0][0].id] = r
+                    return self.wrap(cx, self.cblock(rest, cx.same()))
                 fail(s, 'unpacking with several non-proof components')
             v = self.cexpr(val, cx)
             # a, b = res  where res : option (x, proof)
@@ -861,6 +911,10 @@ class Translator:
                 k = self.cblock(rest, cx.same())
                 pat_ = nns[0] if len(nns) == 1 else '(' + ', '.join(nns) + ')'
                 return self.wrap(cx, f'match {v.code} with\n| Some {pat_} =>\n{k}\n| None => Err\nend')
+            if v.parts is not None and len(v.parts) == len(tg.elts) and all(isinstance(t, ast.Name) for t in tg.elts):
+                for t, part in zip(tg.elts, v.parts):
+                    cx.env[t.id] = part
+                return self.wrap(cx, self.cblock(rest, cx.same()))
             if isinstance(v.ty, tuple) and v.ty[0] == 'tuple' and len(v.ty[1]) == len(tg.elts) \
                     and all(isinstance(t, ast.Name) for t in tg.elts):
                 nns = []
@@ -883,12 +937,10 @@ class Translator:
             want = ann_type(s.annotation)
             if want != v.ty and not (want == 'pat' and v.ty == 'pat'):
                 fail(s, f'annotation {want} does not fit {v.ty}')
-        nn = cx.fresh(name)
-        cx.env[name] = V(v.ty, nn)
+        cx.env[name] = V(v.ty, v.code, v.parts)
         if full is not None:
             cx.fulltypes[name] = full
-        k = self.cblock(rest, cx.same())
-        return self.wrap(cx, f'let {nn} := {v.code} in\n{k}')
+        return self.wrap(cx, self.cblock(rest, cx.same()))
 
     def cexprstmt(self, s, rest, cx):
         e = s.value
@@ -899,10 +951,8 @@ class Translator:
             et = {'fsetlist': 'fset', 'clauses': 'clause', 'clause': 'int'}.get(lst.ty)
             if et != v.ty:
                 fail(s, f'append of {v.ty} to {lst.ty}')
-            nn = cx.fresh(e.func.value.id)
-            cx.env[e.func.value.id] = V(lst.ty, nn)
-            k = self.cblock(rest, cx.same())
-            return self.wrap(cx, f'let {nn} := {lst.code} ++ [{v.code}] in\n{k}')
+            cx.env[e.func.value.id] = V(lst.ty, f'({lst.code} ++ [{v.code}])')
+            return self.wrap(cx, self.cblock(rest, cx.same()))
         fail(s, 'expression statement')
 
     # ---- if ---------------------------------------------------------------------------------------------------------------
@@ -949,55 +999,60 @@ class Translator:
             th = branch(s.body, a, then_term)
             # Implies.extract raises (assert) when the pattern is not an implication: the else branch is unreachable
             return self.wrap(cx, f'match {v.code} with\n| KImp {n0} {n1} =>\n{th}\n| _ => Err\nend')
+        if isinstance(t, ast.UnaryOp) and isinstance(t.op, ast.Not):
+            inner_v = self.cexpr(t.operand, cx.same())
+            if inner_v.ty == 'bool' and not (not s.orelse and not then_term):
+                swapped = ast.If(test=t.operand, body=(s.orelse if s.orelse else ([ast.Pass()] if then_term else [])),
+                                 orelse=s.body)
+                ast.copy_location(swapped, s)
+                if not s.orelse and then_term:
+                    # guard clause: `if not c: <returns>` ; rest   ==   if c: rest else: <returns>
+                    swapped.body = rest
+                    return self.cif(swapped, [], cx)
+                return self.cif(swapped, rest, cx)
         c = self.cexpr(t, cx)
         tt = self.truthy(c, t)
-        # join without duplicating the continuation: both branches only assign plain variables
+        # join without duplicating the continuation: both branches only assign plain variables.  Canonical form (shared with
+        # conditional expressions): every variable assigned in a branch becomes `if c then <then-value> else <else-value>`
         if not then_term and not else_term and self.pure_assigns(s.body, cx) and self.pure_assigns(s.orelse, cx):
-            vars_ = []
-            for b in (s.body, s.orelse):
-                for st in b:
-                    if id(st) in cx.dropped:
-                        continue
-                    for n in self.bind_names(st.targets[0] if isinstance(st, ast.Assign) else st.target):
-                        if n not in vars_:
-                            vars_.append(n)
-
             def arm(body):
                 sub = cx.same()
                 sub.pending = []
-                binds = []
                 for st in body:
                     if id(st) in cx.dropped:
                         continue
                     tg = st.targets[0] if isinstance(st, ast.Assign) else st.target
                     val = self.cexpr(st.value, sub)
                     if isinstance(tg, ast.Tuple):
-                        if not (isinstance(val.ty, tuple) and val.ty[0] == 'tuple'):
-                            fail(st, 'tuple assignment')
-                        tmp = [sub.fresh(x.id) for x in tg.elts]
-                        binds.append(f"let '({', '.join(tmp)}) := {val.code} in")
-                        for x, ty, nm in zip(tg.elts, val.ty[1], tmp):
-                            sub.env[x.id] = V(ty, nm)
+                        if val.parts is None or len(val.parts) != len(tg.elts) or not all(isinstance(x, ast.Name) for x in tg.elts):
+                            fail(st, 'tuple assignment in a joined if')
+                        for x, part in zip(tg.elts, val.parts):
+                            sub.env[x.id] = part
                     else:
-                        nm = sub.fresh(tg.id)
-                        binds.append(f'let {nm} := {val.code} in')
-                        sub.env[tg.id] = V(val.ty, nm)
+                        sub.env[tg.id] = V(val.ty, val.code, val.parts)
                 if sub.pending:
                     fail(s, 'method call inside a joined if')
-                for n in vars_:
-                    if n not in sub.env:
-                        fail(s, f'variable {n} assigned in one branch only and undefined before')
-                return ' '.join(binds) + ' (' + ', '.join(sub.env[n].code for n in vars_) + ')', [sub.env[n].ty for n in vars_]
-            a_code, a_tys = arm(s.body)
-            b_code, b_tys = arm(s.orelse)
-            if a_tys != b_tys:
-                fail(s, 'branches assign different types')
-            news = [cx.fresh(n) for n in vars_]
-            for n, ty, nn in zip(vars_, a_tys, news):
-                cx.env[n] = V(ty, nn)
-            k = self.cblock(rest, cx.same())
-            pat = news[0] if len(news) == 1 else "'(" + ', '.join(news) + ')'
-            return self.wrap(cx, f'let {pat} := if {tt} then {a_code} else {b_code} in\n{k}')
+                return sub
+            sa, sb = arm(s.body), arm(s.orelse)
+            vars_ = []
+            for b_ in (s.body, s.orelse):
+                for st in b_:
+                    if id(st) in cx.dropped:
+                        continue
+                    for n in self.bind_names(st.targets[0] if isinstance(st, ast.Assign) else st.target):
+                        if n not in vars_:
+                            vars_.append(n)
+            for n in vars_:
+                if n not in sa.env or n not in sb.env:
+                    fail(s, f'variable {n} assigned in one branch only and undefined before')
+                va, vb = sa.env[n], sb.env[n]
+                if va.ty != vb.ty:
+                    if va.ty in ('int', 'id') and vb.ty in ('int', 'id'):
+                        va, vb = V('int', self.as_int(va, s)), V('int', self.as_int(vb, s))
+                    else:
+                        fail(s, f'branches assign different types to {n}')
+                cx.env[n] = va if va.code == vb.code else V(va.ty, f'(if {tt} then {va.code} else {vb.code})')
+            return self.wrap(cx, self.cblock(rest, cx.same()))
         th = branch(s.body, cx.same(), then_term)
         el = branch(s.orelse, cx.same(), else_term)
         return self.wrap(cx, f'if {tt} then\n{th}\nelse\n{el}')
@@ -1036,7 +1091,15 @@ class Translator:
             sub.env[a] = V('int', cname(a))
             sub.env[b] = V('int', cname(b))
             c = self.truthy(self.cexpr(s.body[0].test, sub), s)
-            rv = self.creturn(s.body[0].body[0].value, sub)
+            rvn = s.body[0].body[0].value
+            live_rest = [x for x in rest if id(x) not in cx.dropped]
+            if isinstance(rvn, ast.Constant) and rvn.value is True and len(live_rest) == 1 \
+                    and isinstance(live_rest[0], ast.Return) and isinstance(live_rest[0].value, ast.Constant) \
+                    and live_rest[0].value.value is False:
+                # canonical form shared with `return any(c for a, b in combinations(l, 2))`
+                ex = V('bool', f"(existsb (fun '({cname(a)}, {cname(b)}) => {c}) (combinations2 {l.code}))")
+                return self.wrap(cx, cx.ret(self.coerce(ex, project(self.sig[cx.method]), s), cx))
+            rv = self.creturn(rvn, sub)
             k = self.cblock(rest, cx.same())
             return self.wrap(cx, f"if existsb (fun '({cname(a)}, {cname(b)}) => {c}) (combinations2 {l.code}) then\n"
                                  f'{cx.ret(rv, cx)}\nelse\n{k}')
@@ -1172,8 +1235,48 @@ class Translator:
         return out
 
     # ---- methods -----------------------------------------------------------------------------------------------------------
+    def desugar(self, f):
+        """`x: T = {k: v for tgt in it if c}`  ==  `x: T = {}` ; `for tgt in it: if c: x[k] = v`"""
+        class D(ast.NodeTransformer):
+            def visit_stmts(d, stmts):
+                out = []
+                for st in stmts:
+                    val = getattr(st, 'value', None)
+                    if isinstance(st, (ast.Assign, ast.AnnAssign)) and isinstance(val, ast.DictComp):
+                        tg = st.targets[0] if isinstance(st, ast.Assign) else st.target
+                        if not isinstance(tg, ast.Name) or len(val.generators) != 1 or val.generators[0].is_async:
+                            fail(st, 'dict comprehension shape')
+                        g = val.generators[0]
+                        init = ast.AnnAssign(target=ast.Name(id=tg.id, ctx=ast.Store()),
+                                             annotation=(st.annotation if isinstance(st, ast.AnnAssign) else ast.Name(id='ResolutionHint', ctx=ast.Load())),
+                                             value=ast.Dict(keys=[], values=[]), simple=1)
+                        store = ast.Assign(targets=[ast.Subscript(value=ast.Name(id=tg.id, ctx=ast.Load()), slice=val.key, ctx=ast.Store())],
+                                           value=val.value)
+                        body = [store]
+                        if g.ifs:
+                            test = g.ifs[0] if len(g.ifs) == 1 else ast.BoolOp(op=ast.And(), values=list(g.ifs))
+                            body = [ast.If(test=test, body=[store], orelse=[])]
+                        loop = ast.For(target=g.target, iter=g.iter, body=body, orelse=[])
+                        for n in (init, loop):
+                            ast.copy_location(n, st)
+                            ast.fix_missing_locations(n)
+                        out += [init, loop]
+                    else:
+                        out.append(d.visit(st))
+                return out
+
+            def generic_visit(d, node):
+                for fld, val in ast.iter_fields(node):
+                    if isinstance(val, list) and val and isinstance(val[0], ast.stmt):
+                        setattr(node, fld, d.visit_stmts(val))
+                    elif isinstance(val, ast.AST):
+                        d.visit(val)
+                return node
+        D().visit(f)
+        return f
+
     def method(self, m):
-        f = self.methods[m]
+        f = self.desugar(self.methods[m])
         proofvars, dropped = self.classify(f)
         env = {}
         params = []
